@@ -355,3 +355,16 @@ where
         self.kktsolver.verif_view()
     }
 }
+
+// Add-only read access for the external verification harness (/verif, whole-solver
+// correspondence): the fill-reducing ordering used by the LDL engine behind a live solver.
+#[cfg(feature = "verif-hooks")]
+#[allow(missing_docs)]
+impl<T> DefaultKKTSystem<T>
+where
+    T: FloatT,
+{
+    pub fn verif_ldl_perm(&self) -> Option<Vec<usize>> {
+        self.kktsolver.verif_ldl_perm()
+    }
+}
